@@ -146,6 +146,18 @@ class AbstractTime:
     def __eq__(self, other):
         return vstat_same_wallclock(self, other)
 
+    def __lt__(self, other):
+        return vstat_component(self.zone, "time_of_day_minus_other") < 0
+
+    def __le__(self, other):
+        return vstat_component(self.zone, "time_of_day_minus_other") <= 0
+
+    def __gt__(self, other):
+        return vstat_component(self.zone, "time_of_day_minus_other") > 0
+
+    def __ge__(self, other):
+        return vstat_component(self.zone, "time_of_day_minus_other") >= 0
+
     def replace(self, **kwargs):
         return vstat_time_replace(self, kwargs)
 
